@@ -1,12 +1,16 @@
 import NavisModel.Proofs.HealLemmas
+import NavisModel.Proofs.HealMinLemmas
 import NavisModel.Proofs.HealStitchLemmas
+import NavisModel.Proofs.HealStitchWfLemmas
 /-!
 # C11 — healing and stitching connect fragments minimally and lose nothing
 
 Property theorems only; helper lemmas are in `Proofs/HealConnLemmas.lean` (connectivity, acyclic edge
 lists), `Proofs/HealRewireLemmas.lean` (the traversal behind `rewire`), `Proofs/HealKruskalLemmas.lean`
-(union–find invariant, cut property), `Proofs/HealLemmas.lean` (candidate edges, assembled facts,
-fragments) and `Proofs/HealStitchLemmas.lean` (id-clash remap).
+(union–find invariant, cut property), `Proofs/HealMstLemmas.lean` (rank lemma of the graphic matroid,
+optimality of Kruskal's forest), `Proofs/HealLemmas.lean` / `Proofs/HealMinLemmas.lean` (candidate edges,
+assembled facts, fragments, minimality against arbitrary allowed connections) and
+`Proofs/HealStitchLemmas.lean` / `Proofs/HealStitchWfLemmas.lean` (id-clash remap, disjoint union).
 
 All statements hold for every table `t` (any size, labelling and row order) that is a well-formed
 forest, every method / `max_dist` / `min_size` / `mask`, every list of skeletons.  Distances are
@@ -103,25 +107,35 @@ theorem heal_is_spanning_forest_of_quotient (t : Table) (o : Opts) (h : 1 < (roo
 theorem heal_edges_acyclic (t : Table) (hw : WF t) (o : Opts) : Acyc (uedges (heal t o)) :=
   Acyc_uedges (heal_spec hw o).1
 
-/-
-Full statement (stretch goal of DESIGN §5, NOT proved):
+/-- **Minimal total length (MST optimality).**  Take ANY list `T` of allowed connections (pairs of allowed
+nodes of two different fragments, strictly closer than `max_dist`) that joins whatever fragments the
+allowed connections can join.  Then the bridging edges of `heal` weigh at most as much as `T`, for EVERY
+monotone weight `w` of the squared length — e.g. `w = id` (sum of squared lengths), `w x = ⌊2ᵏ·√x⌋` for every
+`k` (hence the sum of the true lengths), or `w x = [θ ≤ x]` (number of edges at least `θ` long).
+Proof: union–find class counting gives the rank lemma of the graphic matroid (`acyclic_le_spanning`), the
+sorted scan gives domination on every threshold (`kruskal_dominates`), a layer-cake sum gives the total. -/
+theorem kruskal_minimal (t : Table) (hw : WF t) (o : Opts) (T : List CEdge) (hT : ∀ e ∈ T, Allowed t o e)
+    (hspan : ∀ c ∈ quotientEdges t o, Conn (qE T) c.fa c.fb) (w : Nat → Nat) (hmono : ∀ x y, x ≤ y → w x ≤ w y) :
+    ((healAdded t o).map fun e => w e.d2).sum ≤ (T.map fun e => w e.d2).sum :=
+  healAdded_minimal hw o T hT hspan w hmono
 
-  theorem kruskal_minimal (t o) (T : List CEdge) (hT : ∀ e ∈ T, e ∈ quotientEdges t o)
-      (hspan : ∀ c ∈ quotientEdges t o, Conn (qE T) c.fa c.fb) (w : Nat → Nat) (hw : Monotone w) :
-      ((healAdded t o).map (w ·.d2)).sum ≤ (T.map (w ·.d2)).sum
+/-- … in particular against every spanning subset of the quotient graph's candidate edges, and on every
+threshold: for every length `θ`, `heal` adds at most as many edges of squared length ≥ `θ` as `T` has. -/
+theorem kruskal_minimal_thresholds (t : Table) (o : Opts) (T : List CEdge) (hT : ∀ e ∈ T, e ∈ quotientEdges t o)
+    (hspan : ∀ c ∈ quotientEdges t o, Conn (qE T) c.fa c.fb) (θ : Nat) :
+    (healAdded t o).countP (fun e => decide (θ ≤ e.d2)) ≤ T.countP (fun e => decide (θ ≤ e.d2)) := by
+  unfold healAdded
+  split
+  · simp
+  · apply kruskal_dominates _ T hT hspan
+    intro e f hef he
+    simp only [decide_eq_true_eq] at he ⊢
+    omega
 
-What is proved instead is the CUT PROPERTY, which characterises minimum spanning forests: every bridging
-edge is a shortest allowed connection across some cut of the fragments.  Missing for the full statement
-is the exchange lemma of forests ("an acyclic edge set inside the classes of a spanning forest F has at
-most |F| edges"), which turns the cut property into optimality of the total.  Minimality of the total
-length is therefore additionally TESTED by the harness (exhaustive enumeration of the spanning trees of
-the quotient graph for ≤ 6 fragments).
--/
-
-/-- **Cut property (partial minimality).** For every bridging edge there is a cut of the fragments that it
+/-- **Cut property.** For every bridging edge there is a cut of the fragments that it
 crosses such that NO pair of allowed nodes on different sides of the cut (and closer than `max_dist`) is
 closer than the bridging edge. -/
-theorem heal_minimal_partial (t : Table) (hw : WF t) (o : Opts) : ∀ e ∈ healAdded t o,
+theorem heal_cut_property (t : Table) (hw : WF t) (o : Opts) : ∀ e ∈ healAdded t o,
     ∃ S : Int → Prop, S e.fa ∧ ¬ S e.fb ∧
       ∀ na ∈ t, ∀ nb ∈ t, isCand t o na = true → isCand t o nb = true →
         S (fragOf t na.id) → ¬ S (fragOf t nb.id) →
@@ -239,6 +253,12 @@ theorem stitch_remap_consistent (mIx : Nat) (l : List Skel) (hok : ∀ s ∈ l, 
   rw [h2.eq]
   simp [remapSkel, remapNode, List.map_map, Function.comp_def]
 
+/-- The combined table (`method = 'NONE'`, `combine_neurons`) and the stitched table are well-formed
+forests whenever every input is. -/
+theorem stitch_wf (mIx : Nat) (l : List Skel) (hw : ∀ s ∈ l, WF s.nodes) (o : Opts) :
+    WF (combine mIx l).nodes ∧ WF (stitch mIx l o).nodes :=
+  ⟨combine_WF mIx l hw, heal_wf _ (combine_WF mIx l hw) o⟩
+
 /-- `method = 'NONE'` / `combine_neurons`: the combined tables are the concatenation of the remapped inputs. -/
 theorem combine_is_concat (mIx : Nat) (l : List Skel) :
     (combine mIx l).nodes = (stitchRemap mIx l).flatMap (·.nodes) ∧
@@ -264,6 +284,28 @@ example : (healAdded ex { maxD2 := some 101 }).map (fun e => (e.a, e.b)) = [(7, 
 example : (healAdded ex { method := .leafs, mask := some [5, 6, 1, 3] }).map (fun e => (e.a, e.b, e.d2)) =
     [(5, 1, 136), (1, 3, 1256)] := by decide
 example : healOKB ex (heal ex {}) none = true := by decide
+/-- a competitor for `kruskal_minimal`: the spanning tree 5–1–3 of the quotient graph via other node pairs -/
+def exT : List CEdge := [⟨136, 5, 1, 5, 1⟩, ⟨1256, 1, 3, 1, 3⟩]
+example : ∀ e ∈ exT, Allowed ex {} e := by
+  intro e he
+  simp only [exT, List.mem_cons, List.not_mem_nil, or_false] at he
+  rcases he with rfl | rfl
+  · exact ⟨⟨⟨5, -1, 0, 0, 0, .root⟩, by decide, ⟨1, -1, 6, 10, 0, .root⟩, by decide, by decide, by decide, by decide, by decide, by decide⟩,
+      by decide, by decide⟩
+  · exact ⟨⟨⟨1, -1, 6, 10, 0, .root⟩, by decide, ⟨3, -1, 40, 0, 0, .root⟩, by decide, by decide, by decide, by decide, by decide, by decide⟩,
+      by decide, by decide⟩
+example : ∀ c ∈ quotientEdges ex {}, Conn (qE exT) c.fa c.fb := by
+  have hq : quotientEdges ex {} = [⟨100, 7, 1, 5, 1⟩, ⟨1156, 7, 3, 5, 3⟩, ⟨1061, 2, 3, 1, 3⟩] := by decide
+  have h51 : Conn (qE exT) 5 1 := Conn.single (Or.inl (by decide))
+  have h13 : Conn (qE exT) 1 3 := Conn.single (Or.inl (by decide))
+  intro c hc
+  rw [hq] at hc
+  simp only [List.mem_cons, List.not_mem_nil, or_false] at hc
+  rcases hc with rfl | rfl | rfl
+  · exact h51
+  · exact h51.trans h13
+  · exact h13
+example : ((healAdded ex {}).map fun e => e.d2).sum = 1161 ∧ (exT.map fun e => e.d2).sum = 1392 := by decide
 example : (fragments ex) = [[5, 6, 7], [1, 2], [3]] := by decide
 example : (breakFragments ex 2).length = 2 := by decide
 
